@@ -121,6 +121,8 @@ func newSandbox() (*sandbox, error) {
 	ind("static/b")
 	in("static/b/index.html", "STATIC-b-index")
 	in("static/b/a", "STATIC-b-a")
+	ind("static/third-party")
+	in("static/third-party/a", "STATIC-third-party-a")
 
 	// sentinels
 	out("a", sentinelM+"-01")
